@@ -736,6 +736,8 @@ class StmtMixin:
                 h.assume(pv.t == z3.SubSeq(seqv.t, 0, i.t))
                 self.track(h, pv)
             h.assume(S.lift(ls.inv(self.inv_ctx(h, pre, extra_for(i)))))
+            if ls.hints is not None:
+                h.assume(S.lift(ls.hints(self.inv_ctx(h, pre, extra_for(i)))))
             if not self.feasible(h):
                 self.loop_heads.setdefault(ordn, [0, 0])[1] += 1
                 return outs
